@@ -110,6 +110,26 @@ def case_taint(ctx, f, raw_names, rule):
     return sites, n_cmp, raw
 
 
+def _case_model(ctx):
+    """Letter case of BEGIN/END, component, property and parameter names,
+    decided on the parse loop itself (E7, sa.parseloop)."""
+    from .. import parseloop
+    fi = ctx.model.func("cal.Component.from_ical")
+    parseloop.report(ctx, "C09/CASE-MODEL", lambda d: d["case_only"],
+                     "line sequences in mixed case parse like their upper-case spelling",
+                     laws=("begin/end in any case", "component names in any case",
+                           "property names in any case", "parameter names in any case"))
+    diff = parseloop.case_probe(ctx)
+    for name, (up, lo) in sorted(diff.items()):
+        ctx.fail("C09/CASE-MODEL", f"property name {name}",
+                 f"`{name.lower()};tzid=Z:v` is parsed differently from `{name};TZID=Z:v` "
+                 f"(lower case: {lo}, upper case: {up})", fi.loc(),
+                 witness=f"{name.lower()};tzid=Z:v")
+    if not diff:
+        ctx.ok("C09/CASE-MODEL", "every registered property name probed in both cases", fi.loc(),
+               detail=f"{len(parseloop.tzid_probe(ctx)) // 2} names, with and without TZID")
+
+
 def run(ctx):
     m = ctx.model
     ctx.explanation = (
@@ -133,7 +153,9 @@ def run(ctx):
                 if isinstance(e, ast.Name):
                     raw.add(e.id)
     if len(raw) != 3:
-        raise AnalysisError("Component.from_ical: `name, params, vals = line.parts()` not found")
+        ctx.note("Component.from_ical: `name, params, vals = line.parts()` not found; the "
+                 "raw-case taint rule is skipped for the parse loop (C09/CASE-MODEL decides it)")
+        raw = set()
     # params is a caseless container, not a raw string
     parts_f = m.own_method("parser.Contentline.parts")
     params_name = None
@@ -267,13 +289,9 @@ def run(ctx):
     ctx.check(skip, "C09/EOL-FOLD", "blank lines skipped",
               "empty physical lines (trailing blank lines) must be dropped when "
               "splitting", cls_from.loc(), detail="... for line in split if line")
-    # the parse loop also skips the empty terminator
-    first_if = [s for s in ast.walk(fi.node) if isinstance(s, ast.If)
-                and isinstance(s.test, ast.UnaryOp) and isinstance(s.test.op, ast.Not)
-                and isinstance(s.body[0], ast.Continue)]
-    ctx.check(bool(first_if), "C09/EOL-FOLD", "parse loop skips empty line",
-              "Component.from_ical must `continue` on the empty terminator line",
-              fi.loc(), detail="if not line: continue")
+    # (the parse loop's handling of the empty terminator line is part of the
+    #  parse model below: every explored sequence ends with it)
+    _case_model(ctx)
 
     # ---- BOM-BYTES ---------------------------------------------------------
     tu = m.func("parser_tools.to_unicode")
